@@ -11,7 +11,8 @@ DTMIN = -8334601228800 * NS
 NONDEC = ["pending", "slow", "fail"]
 NONDEC_ALIASES = {"pending": ["pending", "pending_desc", "pending_plain", "pending203", "pending201", "pending302", "pending_interval"], "slow": ["slow", "slow500", "slow206", "slow101", "slow_interval", "slow_interval0", "slow_retry"], "fail": ["fail"]}
 TERMINALS = ["success", "denied", "expired", "invalid_grant", "ext", "pending_upper", "malformed200",
-             "pending200", "empty500", "empty200", "text200", "html400", "success400", "denied202", "success201"]
+             "pending200", "empty500", "empty200", "text200", "html400", "success400", "denied202", "success201",
+             "invalid_client", "invalid_client400", "invalid_request", "invalid_scope", "unauthorized_client", "unsupported_grant_type"]
 INTERVALS = ["abs", "null", "0", "1", "5", "7", "30", "3600", str(2 ** 63), str(U64 - 5), str(U64)]
 
 
